@@ -759,6 +759,8 @@ func TestRun(t *testing.T) {
 			n = 3 // Alphabet 3-of-3, committee majority 2-of-3
 		case 4:
 			n = 6 // Alphabet 5-of-6, committee majority 4-of-6
+		case 5:
+			n = 5 // n ≡ 2 (mod 3): Alphabet 4-of-5, committee majority 3-of-5 = floor(n/3)*2+1, the threshold a wrong operator order gives
 		}
 		w := newWorld(t, run, n)
 		w.wf = ci%4 != 3
